@@ -59,10 +59,20 @@ ProbesOf(cm) ==
 RECURSIVE SetSeq(_)
 SetSeq(S) == IF S = {} THEN <<>> ELSE LET x == CHOOSE y \in S : TRUE IN <<x>> \o SetSeq(S \ {x})
 
+\* CMaps that inherit from a predefined Identity CMap while declaring a codespace of their own width (1, 2, 3 bytes)
+CS3 == {<<[lo |-> <<224, 0, 0>>, hi |-> <<224, 255, 255>>]>>}
+E3 == { [k |-> "char", src |-> <<224, 0, 66>>, dst |-> <<0, 66>>] }
+ParentCMaps == {[codespace |-> c, entries |-> es, parent |-> p] :
+                  c \in CS1 \cup CS2 \cup CS3, es \in {<<>>, <<[k |-> "char", src |-> <<65>>, dst |-> <<0, 65>>]>>, <<[k |-> "char", src |-> <<0, 65>>, dst |-> <<0, 66>>]>>, <<[k |-> "char", src |-> <<224, 0, 66>>, dst |-> <<0, 66>>]>>},
+                  p \in {"Identity-H", "Identity-V"}}
+ParentOK(cm) == \A i \in 1..Len(cm.entries) : Inside(cm.codespace, cm.entries[i])
 VARIABLE done
 Init == done = FALSE
 Next == /\ ~done
         /\ \A cm \in CMaps : PrintT(<<"REPLAY", ToJson([codespace |-> cm.codespace, entries |-> cm.entries, probes |-> SetSeq(ProbesOf(cm))])>>)
+        /\ \A cm \in {x \in ParentCMaps : ParentOK(x)} :
+              PrintT(<<"REPLAY", ToJson([codespace |-> cm.codespace, entries |-> cm.entries, parent |-> cm.parent,
+                                         probes |-> SetSeq(ProbesOf(cm) \cup {<<0>>, <<66>>, <<224, 0, 65>>, <<224, 0, 66>>, <<0, 0, 66>>})])>>)
         /\ PrintT(<<"COUNT", ToJson([n |-> Cardinality(CMaps)])>>)
         /\ done' = TRUE
 Spec == Init /\ [][Next]_done
